@@ -80,12 +80,17 @@ pub fn hello_tree(case: &Case) -> (X, Vec<String>) {
     if case.base11 {
         uris.push(BASE11.into());
     }
-    for u in case.caps.uris().into_iter().skip(1) {
-        if u != BASE11 {
+    for u in case.caps.uris() {
+        if u != BASE11 && u != BASE10 {
             uris.push(u);
         }
     }
     uris.extend(case.unknown_caps.iter().cloned());
+    // the base URIs need not come first
+    if !uris.is_empty() {
+        let k = (case.caps.order >> 3) as usize % uris.len();
+        uris.rotate_left(k);
+    }
     if case.duplicate_first_cap && !uris.is_empty() {
         uris.push(uris[0].clone());
     }
@@ -312,6 +317,7 @@ impl Prop for HelloMatrix {
                         base11: b11,
                         url,
                         schemes: schemes & ((1 << SCHEMES.len()) - 1),
+                        order: (std >> 10) as u8 | ((schemes >> 5) << 6),
                     },
                     unknown_caps,
                     duplicate_first_cap,
